@@ -415,6 +415,7 @@ class Parser:
         self.struct_defs: Dict[str, SDF] = {}
         self.message_ids: Dict[str, MT] = {}
         self.message_defs: Dict[str, MDF] = {}
+        self.core_objects: set = set()
 
         self.logger = logging.getLogger(f"pyrtma.parser ({self._instance_count})")
         self.logger.propagate = False
@@ -459,6 +460,7 @@ class Parser:
         self.struct_defs = {}
         self.message_ids = {}
         self.message_defs = {}
+        self.core_objects = set()
 
     def check_duplicate_name(
         self, section: str, name: str, namespaces: Tuple[str, ...]
@@ -1180,6 +1182,10 @@ class Parser:
                         f"Name conflict with a generated name: {section} -> {o.name} is also the name generated for {g.name}\n1: {g.src}\n2: {o.src}\n"
                     )
 
+    def is_core(self, obj: Any) -> bool:
+        """True for a definition of the package's core_defs (not for a user file in a directory of that name)"""
+        return id(obj) in self.core_objects
+
     def check_reserved_name(self, section: str, name: str):
         """Check that a name emitted as-is does not replace a name the generated code uses."""
         if name in RESERVED_NAMES:
@@ -1451,6 +1457,18 @@ class Parser:
                 core_defs = pkg_dir / "core_defs/core_defs.yaml"
                 self.root_path = pkg_dir
                 self.parse_file(core_defs.absolute())
+                # remember what came from the package's own core definitions
+                for section in (
+                    self.constants,
+                    self.string_constants,
+                    self.aliases,
+                    self.host_ids,
+                    self.module_ids,
+                    self.message_ids,
+                    self.struct_defs,
+                    self.message_defs,
+                ):
+                    self.core_objects.update(id(o) for o in section.values())
 
             defs_path = pathlib.Path(msgdefs_file)
             self.root_path = defs_path.parent.resolve()
